@@ -150,6 +150,14 @@ def history_scenarios():
     out.append(sc("resubmit:with-dependent", "resubmit", [[XP("xp", [J("a", 1, code=1), {"op": "wait", "var": "a"}, dict(J("a2", 1, code=0), dup_of="a", after_fail=True),
                                                                      J("b", 2, [("a2", "up")])])]]))
     out.append(sc("resubmit:second-experiment", "resubmit", [[XP("xp", [J("a", 1, code=1)]), XP("xp", [J("a_", 1, code=0), J("b", 2, [("a_", "up")])])]]))
+    # failed in an earlier experiment (the failure marker is on disk until the new process reaches its body), then submitted twice in a
+    # row in the next one: the second submission is a duplicate of the first - also when the first one has to wait for a token
+    for pre in ("none", "token"):
+        first = [J("a", 1, code=1)]
+        second = [TOK("t", 1), J("y", 8, tok=[("t", 1)])] if pre == "token" else []
+        a2 = J("a_", 1, code=0, **({"tok": [("t", 1)]} if pre == "token" else {}))
+        second += [a2, dict(a2, var="a_2", dup_of="a_"), J("b", 2, [("a_", "up")])]
+        out.append(sc(f"resubmit:second-experiment-twice:{pre}", "resubmit", [[XP("xp", first), XP("xp", second)]]))
     return out
 
 
@@ -457,6 +465,19 @@ def token_and_dependency_scenarios():
     # the failing upstream itself holds the token
     body = [TOK("t", 1), J("f", 2, code=1, tok=[("t", 1)]), J("c", 3, [("f", "ups")], tok=[("t", 1)]), J("o", 4, tok=[("t", 1)])]
     out.append(sc("tok+dep:fail:upstream-holds", "tok+dep:fail", [[XP("xp", body)]]))
+    return out
+
+
+def token_redefined_scenarios():
+    """A second process defines the token again with a larger capacity (token.info is rewritten: truncated, then written) while a job of
+    the first process waits for more than the old capacity: it fits now and must be launched.  With real modification times and on a
+    coarse clock (both writes within one tick of the file system's time stamps)."""
+    out = []
+    for coarse in (False, True):
+        for cap2, req in ((2, 2), (3, 2)):
+            p1 = [XP("xpA", [TOK("t", 1), J("a", 1, tok=[("t", req)]), J("c", 3, tok=[("t", 1)])])]
+            p2 = [XP("xpB", [TOK("t", cap2), J("b", 2, tok=[("t", 1)])])]
+            out.append(sc(f"2proc:tok-redefined:{cap2};{req}:{'coarse' if coarse else 'fine'}", "2proc:tok:redefined", [p1, p2], fine=True, coarse_mtime=coarse, may_starve={"a": req}))
     return out
 
 
